@@ -128,7 +128,7 @@ func publicLabels(t *pscrape.Target) map[string]string {
 
 func recC02() *vkit.Recorder {
 	r := vkit.Rec("C02", "exploration", "rapid-generated scrape jobs (scheme, metrics path, params, 0-5 relabel rules from replace/keep/drop/labelmap/labeldrop/labelkeep/hashmod over discovered, meta and reserved labels) x target groups (addresses with/without port, IPv6, invalid; group vs target labels; hostile label values; duplicates within and across groups); differential oracle: vendored Prometheus scrape.TargetsFromGroup on the original job (+ scrape-pool de-duplication) versus the real pipeline TargetsDiscovery -> (JSON -> Injector | in half of the cases a real coordinator cycle -> Shard.UpdateTarget -> sidecar HTTP API -> TargetsManager -> Injector) -> config.Load of the generated file -> TargetsFromGroup -> request through the real Proxy with the outgoing URL observed at the HTTP client; compared as multisets of (public labels, scheme, host, path, query values); non-trivial = non-empty reference set and at least one of: relabel rule changed a label, dropped target, duplicate, param label, digit-leading label name, https; distinct = digest of the case")
-	r.Assume("discovered label NAMES are valid Prometheus names (every Prometheus SD mechanism validates them); invalid final names arise only through labelmap (digit-leading); relabel rules do not touch __scrape_interval__/__scrape_timeout__; user params do not use the routing names _jobName, _hash, _scheme; multiplicities are compared: the reference keeps one target per distinct (all labels incl. internal ones, URL), as the scrape pool does")
+	r.Assume("discovered label NAMES are valid Prometheus names (every Prometheus SD mechanism validates them); invalid final names arise only through labelmap (digit-leading); relabel rules may write __scrape_interval__/__scrape_timeout__ but never remove them; user params do not use the routing names _jobName, _hash, _scheme; multiplicities are compared: the reference keeps one target per distinct (all labels incl. internal ones, URL), as the scrape pool does")
 	return r
 }
 
@@ -365,6 +365,31 @@ func runC02(rec *vkit.Recorder, c *c02Case) []vkit.Violation {
 		key := classify(c, missing, extra, refFail)
 		if emptied != "" {
 			key = "C02/reserved-label-emptied-by-relabeling/" + emptied
+		}
+		if len(missing) == 0 && len(extra) > 0 && emptied == "" {
+			// nothing but multiplicities differ, and a rule writes the per-target interval / timeout: kvass' own
+			// label construction does not put the job's interval and timeout into the labels before relabeling, so a
+			// target that is given the job's own value explicitly and one that keeps the default are two targets for
+			// kvass and one for Prometheus (recorded corner, see DESIGN 8.4)
+			writesScrape := false
+			for _, r := range c.Job.Rules {
+				if r.Target == "__scrape_interval__" || r.Target == "__scrape_timeout__" {
+					writesScrape = true
+				}
+			}
+			inWant := map[string]bool{}
+			for _, w := range want {
+				inWant[w] = true
+			}
+			onlyCopies := true
+			for _, e := range extra {
+				if !inWant[e] {
+					onlyCopies = false
+				}
+			}
+			if writesScrape && onlyCopies {
+				key = "C02/explicit-default-scrape-interval-or-timeout/target-kept-twice"
+			}
 		}
 		add(key, "single prometheus would scrape %d target(s), the shards scrape %d\nonly single prometheus:\n  %s\nonly sharded:\n  %s", len(want), len(got), strings.Join(missing, "\n  "), strings.Join(extra, "\n  "))
 	}
